@@ -176,42 +176,34 @@ def r5_fraction(rep, g, facts):
         return
     ok = len(scale) == 10 and all(scale[n] == 10 ** (9 - n) for n in range(1, 10))
     rep.check(R, 'time_secfrac|SCALE', ok, 'SCALE[n] == 10^(9-n)', f'SCALE table is {scale}', loc)
-    # max_digits = SCALE.len() - 1 == 9 and the slice 0..max_digits under `max_digits < repr.len()`
-    md = None
-    for n in walk(b['body']):
-        if n.get('k') == 'let' and n['pat'].get('k') == 'p_bind' and n['pat']['name'].startswith('max_digits'):
-            try:
-                md = g.ev.integer(n['init'])
-            except Unanalysable:
-                md = None
-    rep.check(R, 'time_secfrac|max-digits', md == 9, 'max_digits == 9', f'max_digits evaluates to {md}', loc)
-    cut = False
-    for n in walk(b['body']):
-        if n.get('k') == 'if':
-            c = peel(n['cond'])
-            if c.get('k') == 'binary' and c.get('op') in ('<', '>'):
-                asg = [x for x in walk(n['then']) if x.get('k') == 'assign']
-                for x in asg:
-                    for ix in walk(x['rhs']):
-                        if ix.get('k') == 'index':
-                            idx = peel(ix['idx'])
-                            if idx.get('k') == 'struct' and 'Range' in (idx.get('path') or ''):
-                                f = {y['name']: y['e'] for y in idx['fields']}
-                                try:
-                                    s0 = g.ev.integer(f['start'])
-                                except Unanalysable:
-                                    s0 = None
-                                e0 = peel(f['end'])
-                                if s0 == 0 and e0.get('k') == 'path' and e0.get('path', '').startswith('max_digits'):
-                                    cut = True
+    # the conversion closure itself, evaluated on digit strings of 1..=14 digits: the value is the first min(n, 9) digits scaled to nanoseconds
+    # (whatever the syntactic form of the truncation: `if max < len { repr = &repr[0..max] }`, `&repr[..len.min(max)]`, ...)
+    from .den import FxInterp
+    t = term(g, 'datetime::time_secfrac')
+    fl = [x for x in pm.filters(g, t) if x[0] in ('try_map', 'verify_map', 'map')]
+    clos = [pm.closure_of(x[2].get('filt')) for x in fl]
+    clos = [c for c in clos if c is not None]
+    if len(clos) != 1:
+        rep.incomplete(R, 'time_secfrac|closure', f'{len(clos)} conversion closures found in time_secfrac (expected the one try_map)', loc)
+        return
+    it = FxInterp(g.ev)
+    digits = '12345678987654'
+    bad = None
+    try:
+        for n in range(1, len(digits) + 1):
+            txt = digits[:n]
+            r = it.apply(('closure', clos[0], {}), [txt])
+            want = int(txt[:9]) * 10 ** (9 - min(n, 9))
+            got = r[2][0] if isinstance(r, tuple) and len(r) == 3 and r[0] == 'ctor' and r[1].endswith('Result::Ok') else r
+            if got != want and bad is None:
+                bad = (txt, got, want)
+    except Unanalysable as e:
+        rep.incomplete(R, 'time_secfrac|truncate', f'cannot evaluate the conversion closure: {e}', loc)
+        return
     rounding = [c for n in calls_in(b['body']) for c in callee_all(n) if last_seg(c) in ('round', 'ceil')]
-    rep.check(R, 'time_secfrac|truncate', cut and not rounding, 'repr = &repr[0..max_digits] (no rounding)',
-              'extra fraction digits are not cut off at 9 digits (or a rounding call appeared)', loc)
-    # scaling: v * SCALE[len]
-    sc = any(n.get('k') == 'mcall' and n.get('name') in ('checked_mul',) for n in walk(b['body']))
-    getn = any(n.get('k') == 'mcall' and n.get('name') == 'get' and 'SCALE' in (peel(n['recv']).get('path') or '') for n in walk(b['body']))
-    rep.check(R, 'time_secfrac|scaling', sc and getn, 'v.checked_mul(*SCALE.get(num_digits))', 'the digits are no longer scaled by SCALE[number of digits]', loc)
-
+    rep.check(R, 'time_secfrac|truncate', bad is None and not rounding, 'first min(n, 9) digits, scaled by 10^(9-n); further digits dropped',
+              (f'a fraction written `.{bad[0]}` becomes {bad[1]} ns, expected {bad[2]} ns (first nine digits, truncated, scaled)' if bad else 'a rounding call appeared'), loc)
+    rep.check(R, 'time_secfrac|scaling', bad is None, 'value * 10^(9 - digits)', 'the digits are no longer scaled by SCALE[number of digits]', loc)
 
 def r6_newlines(rep, g, a):
     R = rep.rule('C02/R6', 'multi-line strings: newline content yields "\\n", line continuation yields "", CRLF is normalised '
